@@ -25,7 +25,7 @@ def suite(tree):
     env = dict(os.environ, PYTHONPATH=tree, GIT_CONFIG_COUNT='1', GIT_CONFIG_KEY_0='init.defaultBranch',
                GIT_CONFIG_VALUE_0='master', MPLBACKEND='Agg')
     sh(['/venv/bin/python', '-m', 'pytest', '-q', '-p', 'no:cacheprovider', '--timeout=900',
-        '--continue-on-collection-errors', '--junitxml=' + xml], cwd=tree, env=env, timeout=3600)
+        '--continue-on-collection-errors', '--ignore=_seed', '--junitxml=' + xml], cwd=tree, env=env, timeout=3600)
     base = json.load(open('/root/.vp/BASELINE.json'))
     stable = set(base['stable_pass'])
     res = {}
@@ -54,7 +54,10 @@ def main():
         def run_demo():
             if demo is None:
                 return None
-            cmd = ['/venv/bin/python', demo] if demo.endswith('.py') else ['/bin/bash', demo]
+            ddir = os.path.join(tree, '_seed', 'X')
+            os.makedirs(ddir, exist_ok=True)
+            dpath = shutil.copy(demo, ddir)
+            cmd = ['/venv/bin/python', dpath] if dpath.endswith('.py') else ['/bin/bash', dpath]
             res = sh(cmd, cwd=tree, env=env, timeout=1800)
             return res.returncode
         out['demo_exit_unpatched'] = run_demo()
